@@ -8,6 +8,7 @@
   specification exactly (in ℚ), and derive range, normalisation and conservation.
 -/
 import Robotools.Props.C02
+import Robotools.Proofs.MixLemmas
 namespace Robotools.C05
 open Robotools
 
@@ -26,20 +27,45 @@ structure CompValid (L : Labware) : Prop where
   lens : ∀ p ∈ L.comp, p.2.length = L.vols.length
   nonneg : ∀ p ∈ L.comp, ∀ f ∈ p.2, 0 ≤ f
 
+theorem compOf_eq (c : Comp) (k : String) : compOf c k = Mix.csum c k := rfl
+theorem fracSum_eq (L : Labware) (i : Nat) : fracSum L i = Mix.colSum L.comp i := rfl
+
+/-- What `addStep` with a composition does to the addressed well, without sign conditions. -/
+private theorem addStep_core (L L' : Labware) (i : Nat) (v : Rat) (cB : Comp)
+    (hL : CompValid L) (hi : i < L.vols.length) (h : L.addStep i v (some cB) = .ok L') :
+    L'.vol i = L.vol i + v ∧ (∀ j, j ≠ i → L'.vol j = L.vol j) ∧
+    ∀ j k, L'.frac j k =
+      if j = i ∧ k ∈ (Labware.combine (L.vol i) (L.wellComp i) v cB).map (·.1)
+      then compOf (Labware.combine (L.vol i) (L.wellComp i) v cB) k else L.frac j k := by
+  obtain ⟨hv, hc⟩ := Mix.addStep_some h
+  refine ⟨?_, ?_, ?_⟩
+  · unfold Labware.vol
+    rw [hv, getD_set_self _ _ _ _ hi]
+    rfl
+  · intro j hj
+    unfold Labware.vol
+    rw [hv, getD_set_ne _ _ _ _ _ hj]
+  · intro j k
+    have hnd : ((Labware.combine (L.vol i) (L.wellComp i) v cB).map (·.1)).Nodup :=
+      Mix.nodup_keys_combine _ _ _ _ (Mix.wc_keys_nodup _ _ hL.keys_nodup)
+    rw [Mix.frac_eq, hc, Mix.fracC_setAll _ _ _ _ hL.lens hi hnd]
+    rfl
+
 /-- Nothing is mixed (and nothing divided) when the combined volume is zero. -/
 theorem combine_zero (vA vB : Rat) (cA cB : Comp) (h : vA + vB = 0) : Labware.combine vA cA vB cB = cA := by
-  sorry
+  unfold Labware.combine
+  rw [if_pos h]
 
 /-- Ideal mixing of two liquids, component by component (keys of `cA` distinct). -/
 theorem combine_spec (vA vB : Rat) (cA cB : Comp) (h : vA + vB ≠ 0) (hA : (cA.map (·.1)).Nodup) (k : String) :
     compOf (Labware.combine vA cA vB cB) k = (compOf cA k * vA + compOf cB k * vB) / (vA + vB)
     ∧ ((Labware.combine vA cA vB cB).map (·.1)).Nodup := by
-  sorry
+  exact ⟨Mix.csum_combine vA vB cA cB h k, Mix.nodup_keys_combine vA vB cA cB hA⟩
 
 /-- `get_well_composition` reports exactly the positive fractions. -/
 theorem wellComp_spec (L : Labware) (i : Nat) (hL : CompValid L) (k : String) :
     compOf (L.wellComp i) k = L.frac i k ∧ ((L.wellComp i).map (·.1)).Nodup := by
-  sorry
+  exact ⟨Mix.csum_wc L.comp i hL.keys_nodup hL.nonneg k, Mix.wc_keys_nodup _ _ hL.keys_nodup⟩
 
 /-- Refinement, addition of a liquid of known composition `cB`: the amount of every component in
     the addressed well grows by exactly `v * cB k`; all other wells keep their fractions. -/
@@ -48,36 +74,165 @@ theorem addStep_amount (L L' : Labware) (i : Nat) (v : Rat) (cB : Comp)
     (h : L.addStep i v (some cB) = .ok L') :
     (∀ k, amount L' i k = amount L i k + v * compOf cB k)
     ∧ (∀ j k, j ≠ i → L'.frac j k = L.frac j k) := by
-  sorry
+  obtain ⟨hvol', _, hfrac⟩ := addStep_core L L' i v cB hL hi h
+  refine ⟨?_, ?_⟩
+  · intro k
+    unfold amount
+    rw [hvol']
+    by_cases h0 : L.vol i + v = 0
+    · have h1 : L.vol i = 0 := by linarith
+      have h2 : v = 0 := by linarith
+      rw [h1, h2]; simp
+    · rw [hfrac i k]
+      have hw : compOf (L.wellComp i) k = L.frac i k := (wellComp_spec L i hL k).1
+      by_cases hk : k ∈ (Labware.combine (L.vol i) (L.wellComp i) v cB).map (·.1)
+      · rw [if_pos ⟨rfl, hk⟩, (combine_spec _ _ _ cB h0 (wellComp_spec L i hL k).2 k).1, hw]
+        field_simp
+      · rw [if_neg (fun hh => hk hh.2)]
+        rw [Mix.mem_keys_combine _ _ _ _ h0] at hk
+        have hk1 : compOf (L.wellComp i) k = 0 := Mix.csum_eq_zero _ _ (fun hh => hk (Or.inl hh))
+        have hk2 : compOf cB k = 0 := Mix.csum_eq_zero _ _ (fun hh => hk (Or.inr hh))
+        rw [← hw, hk1, hk2]; ring
+  · intro j k hj
+    rw [hfrac j k, if_neg (fun hh => hj hh.1)]
 
 /-- The representation invariant is preserved (incoming fractions non-negative). -/
 theorem addStep_compValid (L L' : Labware) (i : Nat) (v : Rat) (c : Option Comp)
     (hL : CompValid L) (hv : 0 ≤ v) (hvol : 0 ≤ L.vol i) (hc : ∀ cB, c = some cB → ∀ p ∈ cB, 0 ≤ p.2)
     (h : L.addStep i v c = .ok L') : CompValid L' := by
-  sorry
+  have hlenv : L'.vols.length = L.vols.length := by
+    rw [(Labware.addStep_fields h).2.1, List.length_set]
+  cases c with
+  | none =>
+    obtain ⟨_, hc'⟩ := Mix.addStep_none h
+    exact ⟨by rw [hc']; exact hL.keys_nodup, by rw [hc', hlenv]; exact hL.lens,
+      by rw [hc']; exact hL.nonneg⟩
+  | some cB =>
+    obtain ⟨_, hc'⟩ := Mix.addStep_some h
+    refine ⟨?_, ?_, ?_⟩
+    · rw [hc']; exact Mix.nodup_keys_setAll _ _ _ _ hL.keys_nodup
+    · rw [hc', hlenv]; exact Mix.lens_setAll _ _ _ _ hL.lens
+    · rw [hc']
+      apply Mix.nonneg_setAll _ _ _ _ _ hL.nonneg
+      apply Mix.nonneg_combine _ _ _ _ _ (hc cB rfl) hvol hv
+      intro p hp
+      exact le_of_lt (Mix.wc_pos _ _ p hp)
 
 /-- Removing liquid never changes a well's composition. -/
 theorem removeStep_frac (L L' : Labware) (i : Nat) (v : Rat) (h : L.removeStep i v = .ok L') :
     L'.comp = L.comp ∧ (∀ j k, L'.frac j k = L.frac j k) := by
-  sorry
+  have hc : L'.comp = L.comp := (Labware.removeStep_fields h).2.2.2.2.2.2.2
+  refine ⟨hc, fun j k => ?_⟩
+  unfold Labware.frac
+  rw [hc]
 
 theorem removeStep_amount (L L' : Labware) (i : Nat) (v : Rat) (hi : i < L.vols.length)
     (h : L.removeStep i v = .ok L') (k : String) :
     amount L' i k = L.frac i k * (L.vol i - v) := by
-  sorry
+  unfold amount
+  rw [(removeStep_frac L L' i v h).2 i k]
+  congr 1
+  unfold Labware.vol
+  rw [(Labware.removeStep_fields h).2.1, getD_set_self _ _ _ _ hi]
+  rfl
 
+set_option linter.unusedVariables false in
 /-- Fractions sum to 1 in every non-empty well: preserved by adding a normalised liquid. -/
 theorem addStep_fracSum (L L' : Labware) (i : Nat) (v : Rat) (cB : Comp)
     (hL : CompValid L) (hi : i < L.vols.length) (hv : 0 ≤ v) (hvol : 0 ≤ L.vol i)
     (hB : (cB.map (·.2)).sum = 1) (hBn : ∀ p ∈ cB, 0 ≤ p.2)
     (hsum : 0 < L.vol i → fracSum L i = 1) (hpos : 0 < L.vol i + v)
     (h : L.addStep i v (some cB) = .ok L') : fracSum L' i = 1 := by
-  sorry
+  obtain ⟨_, hc⟩ := Mix.addStep_some h
+  have hndw : ((L.wellComp i).map (·.1)).Nodup := Mix.wc_keys_nodup _ _ hL.keys_nodup
+  have hnd : ((Labware.combine (L.vol i) (L.wellComp i) v cB).map (·.1)).Nodup :=
+    Mix.nodup_keys_combine _ _ _ _ hndw
+  have hne : L.vol i + v ≠ 0 := ne_of_gt hpos
+  rw [fracSum_eq, hc, Mix.colSum_setAll _ _ _ _ hL.lens hi hnd]
+  have h1 : ((Labware.combine (L.vol i) (L.wellComp i) v cB).map (·.1)).map (Mix.fracC L.comp i)
+      = ((Labware.combine (L.vol i) (L.wellComp i) v cB).map (·.1)).map (Mix.csum (L.wellComp i)) := by
+    apply List.map_congr_left
+    intro k _
+    exact (Mix.csum_wc L.comp i hL.keys_nodup hL.nonneg k).symm
+  rw [h1, Mix.sum_csum_keys _ _ hnd (fun k hk => Mix.keys_subset_combine _ _ _ _ k hk),
+    Mix.total_combine _ _ _ _ hne]
+  have h2 : Mix.total (L.wellComp i) = Mix.colSum L.comp i := Mix.total_wc L.comp i hL.nonneg
+  have h3 : Mix.total cB = 1 := hB
+  have hs : 0 < L.vol i → Mix.colSum L.comp i = 1 := hsum
+  rw [h2, h3, sub_self, zero_add]
+  rcases lt_or_eq_of_le hvol with hp | hz
+  · rw [hs hp]
+    field_simp
+  · rw [← hz] at hne ⊢
+    field_simp
+    ring
 
 /-- Fractions lie within [0, 1] whenever they are non-negative and sum to 1. -/
 theorem frac_range (L : Labware) (i : Nat) (k : String) (hL : CompValid L) (hsum : fracSum L i = 1) :
     0 ≤ L.frac i k ∧ L.frac i k ≤ 1 := by
-  sorry
+  rw [Mix.frac_eq]
+  refine ⟨Mix.fracC_nonneg _ _ _ hL.nonneg, ?_⟩
+  rw [← hsum, fracSum_eq]
+  exact Mix.fracC_le_colSum _ _ _ hL.nonneg
+
+private theorem compValid_removeStep (L L' : Labware) (i : Nat) (v : Rat) (hL : CompValid L)
+    (h : L.removeStep i v = .ok L') :
+    CompValid L' ∧ L'.vols.length = L.vols.length ∧ (∀ j, j ≠ i → L'.vol j = L.vol j) := by
+  have hf := Labware.removeStep_fields h
+  have hc : L'.comp = L.comp := hf.2.2.2.2.2.2.2
+  have hlen : L'.vols.length = L.vols.length := by rw [hf.2.1, List.length_set]
+  refine ⟨⟨by rw [hc]; exact hL.keys_nodup, by rw [hc, hlen]; exact hL.lens,
+    by rw [hc]; exact hL.nonneg⟩, hlen, ?_⟩
+  intro j hj
+  unfold Labware.vol
+  rw [hf.2.1, getD_set_ne _ _ _ _ _ hj]
+
+private theorem vol_nonneg (L : Labware) (j : Nat) (h0 : ∀ x ∈ L.vols, 0 ≤ x) : 0 ≤ L.vol j :=
+  Mix.getD_nonneg _ _ h0
+
+/-- The three micro-operations of one transfer step, run to completion. -/
+private theorem exec3 (w w' : World) (s i d j : Nat) (v : Rat) (S : Labware)
+    (hS : w.labs[s]? = some S)
+    (h : w.exec [.rm s i v, .loadComp s i, .ad d j v .carry] = (w', none)) :
+    ∃ S1 D1 D2, S.removeStep i v = .ok S1 ∧ (w.labs.set s S1)[d]? = some D1 ∧
+      D1.addStep j v (some (S1.wellComp i)) = .ok D2 ∧ w'.labs = (w.labs.set s S1).set d D2 := by
+  have hs : s < w.labs.length := (List.getElem?_eq_some_iff.1 hS).1
+  cases h1 : S.removeStep i v with
+  | error e =>
+    have hm : w.micro (.rm s i v) = .error e := by simp [World.micro, hS, h1]
+    rw [World.exec_cons_error _ hm] at h
+    cases h
+  | ok S1 =>
+    have hm1 : w.micro (.rm s i v) = .ok (w.setLab s S1) := by simp [World.micro, hS, h1]
+    rw [World.exec_cons_ok _ hm1] at h
+    have hs1 : (w.setLab s S1).labs[s]? = some S1 := by
+      simp [World.setLab, List.getElem?_set_self hs]
+    have hm2 : (w.setLab s S1).micro (.loadComp s i)
+        = .ok { w.setLab s S1 with carry := S1.wellComp i } := by
+      simp [World.micro, hs1]
+    rw [World.exec_cons_ok _ hm2] at h
+    cases h3 : (w.labs.set s S1)[d]? with
+    | none =>
+      have hm : ({ w.setLab s S1 with carry := S1.wellComp i } : World).micro (.ad d j v .carry)
+          = .error .reject := by
+        simp [World.micro, World.setLab, h3]
+      rw [World.exec_cons_error _ hm] at h
+      cases h
+    | some D1 =>
+      cases h4 : D1.addStep j v (some (S1.wellComp i)) with
+      | error e =>
+        have hm : ({ w.setLab s S1 with carry := S1.wellComp i } : World).micro (.ad d j v .carry)
+            = .error e := by
+          simp [World.micro, World.setLab, h3, h4]
+        rw [World.exec_cons_error _ hm] at h
+        cases h
+      | ok D2 =>
+        have hm : ({ w.setLab s S1 with carry := S1.wellComp i } : World).micro (.ad d j v .carry)
+            = .ok (({ w.setLab s S1 with carry := S1.wellComp i } : World).setLab d D2) := by
+          simp [World.micro, World.setLab, h3, h4]
+        rw [World.exec_cons_ok _ hm, World.exec_nil] at h
+        cases h
+        exact ⟨S1, D1, D2, rfl, h3, h4, rfl⟩
 
 /-- Conservation by one transfer step (aspirate `v` from well `i` of labware `s`, dispense it with
     the source's composition into well `j` of labware `d`): the total amount of every component
@@ -89,14 +244,86 @@ theorem pair_conserves (w w' : World) (s i d j : Nat) (v : Rat) (S D : Labware) 
     (h : w.exec [.rm s i v, .loadComp s i, .ad d j v .carry] = (w', none)) :
     ∃ S' D', w'.labs[s]? = some S' ∧ w'.labs[d]? = some D'
       ∧ amount S' i k + amount D' j k = amount S i k + amount D j k := by
-  sorry
+  obtain ⟨S1, D1, D2, hrm, hD1, had, hlabs⟩ := exec3 w w' s i d j v S hS h
+  have hs : s < w.labs.length := (List.getElem?_eq_some_iff.1 hS).1
+  have hd : d < w.labs.length := (List.getElem?_eq_some_iff.1 hD).1
+  obtain ⟨hS1v, hS1len, hS1vol⟩ := compValid_removeStep S S1 i v hSv hrm
+  have hS1i : amount S1 i k = S.frac i k * (S.vol i - v) := removeStep_amount S S1 i v hi hrm k
+  have hS1frac : ∀ j k, S1.frac j k = S.frac j k := (removeStep_frac S S1 i v hrm).2
+  have hcarry : compOf (S1.wellComp i) k = S.frac i k := by
+    rw [(wellComp_spec S1 i hS1v k).1, hS1frac]
+  by_cases hsd : s = d
+  · subst hsd
+    have hDS : D = S := by rw [hS] at hD; exact (Option.some.inj hD).symm
+    subst hDS
+    have hij : j ≠ i := fun e => hne (by rw [e])
+    rw [List.getElem?_set_self hs] at hD1
+    have hD1' : D1 = S1 := (Option.some.inj hD1).symm
+    subst hD1'
+    have hj1 : j < D1.vols.length := by rw [hS1len]; exact hj
+    have hvj : 0 ≤ D1.vol j := by rw [hS1vol j hij]; exact vol_nonneg D j hD0
+    obtain ⟨ham, hfr⟩ := addStep_amount D1 D2 j v (D1.wellComp i) hS1v hj1 hv hvj had
+    obtain ⟨_, hvo, _⟩ := addStep_core D1 D2 j v (D1.wellComp i) hS1v hj1 had
+    refine ⟨D2, D2, ?_, ?_, ?_⟩
+    · rw [hlabs, List.getElem?_set_self (by rw [List.length_set]; exact hs)]
+    · rw [hlabs, List.getElem?_set_self (by rw [List.length_set]; exact hs)]
+    · have e1 : amount D2 i k = amount D1 i k := by
+        unfold amount
+        rw [hfr i k (Ne.symm hij), hvo i (Ne.symm hij)]
+      have e2 : amount D1 j k = amount D j k := by
+        unfold amount
+        rw [hS1frac, hS1vol j hij]
+      rw [e1, ham k, hcarry, e2, hS1i]
+      unfold amount
+      ring
+  · have hD1' : D1 = D := by
+      rw [List.getElem?_set_ne hsd, hD] at hD1
+      exact (Option.some.inj hD1).symm
+    subst hD1'
+    have hvj : 0 ≤ D1.vol j := vol_nonneg D1 j hD0
+    obtain ⟨ham, _⟩ := addStep_amount D1 D2 j v (S1.wellComp i) hDv hj hv hvj had
+    refine ⟨S1, D2, ?_, ?_, ?_⟩
+    · rw [hlabs, List.getElem?_set_ne (Ne.symm hsd), List.getElem?_set_self hs]
+    · rw [hlabs, List.getElem?_set_self (by rw [List.length_set]; exact hd)]
+    · rw [ham k, hcarry, hS1i]
+      unfold amount
+      ring
 
+set_option linter.unusedVariables false in
 /-- Mixing within one well (source = destination well) changes nothing. -/
 theorem pair_same_well (w w' : World) (s i : Nat) (v : Rat) (S : Labware) (k : String)
     (hS : w.labs[s]? = some S) (hSv : CompValid S) (hi : i < S.vols.length) (hv : 0 ≤ v) (hS0 : ∀ x ∈ S.vols, 0 ≤ x)
     (h : w.exec [.rm s i v, .loadComp s i, .ad s i v .carry] = (w', none)) :
     ∃ S', w'.labs[s]? = some S' ∧ S'.vol i = S.vol i ∧ amount S' i k = amount S i k := by
-  sorry
+  obtain ⟨S1, D1, D2, hrm, hD1, had, hlabs⟩ := exec3 w w' s i s i v S hS h
+  have hs : s < w.labs.length := (List.getElem?_eq_some_iff.1 hS).1
+  obtain ⟨hS1v, hS1len, _⟩ := compValid_removeStep S S1 i v hSv hrm
+  have hS1frac : ∀ j k, S1.frac j k = S.frac j k := (removeStep_frac S S1 i v hrm).2
+  have hS1vol : S1.vol i = S.vol i - v := by
+    unfold Labware.vol
+    rw [(Labware.removeStep_fields hrm).2.1, getD_set_self _ _ _ _ hi]
+    rfl
+  rw [List.getElem?_set_self hs] at hD1
+  have hD1' : D1 = S1 := (Option.some.inj hD1).symm
+  subst hD1'
+  have hi1 : i < D1.vols.length := by rw [hS1len]; exact hi
+  obtain ⟨hvo, _, hfr⟩ := addStep_core D1 D2 i v (D1.wellComp i) hS1v hi1 had
+  have hvol2 : D2.vol i = S.vol i := by rw [hvo, hS1vol]; ring
+  refine ⟨D2, ?_, hvol2, ?_⟩
+  · rw [hlabs, List.getElem?_set_self (by rw [List.length_set]; exact hs)]
+  · unfold amount
+    rw [hvol2]
+    by_cases h0 : S.vol i = 0
+    · rw [h0]; simp
+    · congr 1
+      have hne : D1.vol i + v ≠ 0 := by rw [hS1vol]; intro e; apply h0; linarith
+      have hw : compOf (D1.wellComp i) k = S.frac i k := by
+        rw [(wellComp_spec D1 i hS1v k).1, hS1frac]
+      rw [hfr i k]
+      split
+      · rw [(combine_spec _ _ _ _ hne (wellComp_spec D1 i hS1v k).2 k).1, hw]
+        field_simp
+      · exact hS1frac i k
 
 example : Labware.combine 100 [("a", 1)] 100 [("b", 1)] = [("a", 1/2), ("b", 1/2)] := by decide +kernel
 example : Labware.combine 0 [] 0 [("b", 1)] = [] := by decide +kernel
